@@ -756,8 +756,9 @@ func c07Excerpt(gs map[string]string, max int) string {
 	return sb.String()
 }
 
-// hangClass names the scenario class of a non-returning / leaking call from the
-// events that were executed.
+// eventClass names the scenario class for signatures: the gated class name, or for
+// racing scenarios a coarse name built from the kinds of terminating events executed
+// (panics of generator/mapper/reducer are folded so that the signature set stays small).
 func (x *c07Run) eventClass() string {
 	if x.sc.Class != "" && x.sc.Class != "random" {
 		return x.sc.Class
@@ -766,15 +767,23 @@ func (x *c07Run) eventClass() string {
 	x.mu.Lock()
 	early := x.sc.Red.Early > 0 && len(x.rwrites) > 0
 	x.mu.Unlock()
-	var parts []string
-	if early {
-		parts = append(parts, "reducer-early-output")
-	}
+	set := map[string]bool{}
 	for _, k := range t {
-		if early && strings.HasSuffix(k, "-panic") {
-			k = "late-" + k
+		if strings.HasSuffix(k, "-panic") {
+			k = "panic"
+			if early {
+				k = "late-panic"
+			}
 		}
+		set[k] = true
+	}
+	var parts []string
+	for k := range set {
 		parts = append(parts, k)
+	}
+	sort.Strings(parts)
+	if early {
+		parts = append([]string{"reducer-early-output"}, parts...)
 	}
 	if len(parts) == 0 {
 		return "racing:no-terminating-event"
